@@ -8,7 +8,12 @@ ID = "C10"
 LEVEL = "proof"
 _T = ["decode_sound", "decode_chain", "decode_no_cpuid", "gcm_available_iff", "allSound_spec", "fallback_spec"]
 THEOREMS = vcore.theorems_in("SodiumModel/Properties/C10.lean", _T, "Sodium.C10")
-IMPORTS = ["SodiumModel.Properties.C10"]
+IMPORTS = ["SodiumModel.Properties.C10", "SodiumModel.Properties.C10Fe25"]
+# the build WITHOUT 128-bit integers: the radix-2^25.5 field code is modelled and proved to be GF(2^255-19); X25519 over it = RFC 7748 = X25519 over the 51-bit code
+THEOREMS = THEOREMS + vcore.theorems_in("SodiumModel/Properties/C10Fe25.lean", ["mul_no_overflow", "mul_spec", "sq_spec", "sq2_spec", "mul32_spec", "frombytes_spec", "reduce_spec", "tobytes_spec",
+                                        "tobytes_tight", "invert_spec", "pow22523_spec", "fe25_refines", "x25519_fe25_eq_rfc7748", "x25519_fe25_eq_fe51"], "Sodium.C10Fe25")
+tie_b = lambda ctx: tie_b_fe25(ctx)
+FINGERPRINTS = "C10"
 RULE = ("(1) decoder co-simulation, exhaustive: all 2^18 combinations of the relevant CPUID/XCR0 bits through hook H2 against the Lean decoder, in the native build "
         "(XGETBV available) and the no-asm build (XCR0 unreadable); (2) Tie B: the picker decision lists and per-implementation target sets are regenerated from the source "
         "for every build variant and the kernel checks selection soundness over all 1024 feature sets; (3) reported flags with no mask are a subset of /proc/cpuinfo; "
@@ -18,6 +23,19 @@ ASSUMPTIONS = ["assembly implementations (sandy2x: AVX; xmm6 Salsa20: x86-64 bas
                "architectural closure of feature sets (avx512f -> avx2 -> avx -> sse4.1 -> ssse3 -> sse3 -> sse2, aesni/pclmul -> sse2) is a hypothesis of selection soundness",
                "32-bit and big-endian targets are reached only as source paths (noti / portable variants) on this x86-64 host"]
 SOURCES = ["c14", "c16", "c15", "c03", "c04", "c01", "c18", "c05", "c06", "c07", "c13", "c08"]
+
+
+
+def tie_b_fe25(ctx):
+    """the radix-2^25.5 field code (build without 128-bit integers): fe25519_mul / sq / sq2 / mul32 / frombytes are re-transcribed from the current source by
+    tools/c2lean_fe25.py on every run; if the text differs the proofs (no-overflow, value mod p, X25519 over this field = RFC 7748) are re-checked against it"""
+    import subprocess, sys, os
+    e = dict(os.environ); e["VERIF_REPO"] = vcore.REPO
+    gen = lambda out: subprocess.run([sys.executable, os.path.join(vcore.VERIF, "tools", "c2lean_fe25.py"), out], capture_output=True, text=True, env=e)
+    r = vcore.tie_b_regen_multi(ctx, "fe25519 25.5-bit limb code (tools/c2lean_fe25.py)", gen, ["SodiumModel/Model/Fe25Gen.lean", "SodiumModel/Proofs/Fe25Gen.lean"],
+                                "SodiumModel.Properties.C10Fe25", ["Sodium.C10Fe25.mul_spec", "Sodium.C10Fe25.sq_spec", "Sodium.C10Fe25.sq2_spec", "Sodium.C10Fe25.mul32_spec", "Sodium.C10Fe25.frombytes_spec", "Sodium.C10Fe25.x25519_fe25_eq_rfc7748"])
+    ctx.log("Tie B: 25.5-bit field code re-transcribed from the source, %s" % ("identical / proofs hold" if not r else "CHANGED: %s" % [x[0] for x in r]))
+    return r
 
 
 def configs(tier):
